@@ -74,6 +74,10 @@ func menu(tier string) []*item {
 	add("quad+arc", oracle.Chain(false, m[1]), oracle.Chain(false, curvefam.Menu12(P(5, -4))[9]))
 	add("cube+closed-quad-cube", oracle.Chain(false, m[3]), oracle.Chain(true, oracle.MkQuad(P(6, 0), P(8, 2), P(10, 0)), oracle.MkCube(P(10, 0), P(11, -2), P(7, -3), P(7, -1))))
 	add("three-subpaths", oracle.Chain(false, oracle.MkLine(o, P(2, 0))), oracle.Chain(false, m[2]), oracle.Chain(true, oracle.MkLine(P(6, 6), P(8, 6)), oracle.MkLine(P(8, 6), P(7, 8))))
+	// open subpaths that begin exactly where the previous open subpath ended
+	add("polyline | polyline from its end point", oracle.Chain(false, oracle.MkLine(o, P(10, 0)), oracle.MkLine(P(10, 0), P(10, 10))), oracle.Chain(false, oracle.MkLine(P(10, 10), P(0, 10)), oracle.MkLine(P(0, 10), P(2, 4))))
+	add("quad | cube from its end point | line from its end point", oracle.Chain(false, m[1]), oracle.Chain(false, curvefam.Menu12(m[1].P1)[3]), oracle.Chain(false, oracle.MkLine(curvefam.Menu12(m[1].P1)[3].P1, P(1, -3))))
+	add("triangle | line from its start point", oracle.Chain(true, oracle.MkLine(o, P(4, 0)), oracle.MkLine(P(4, 0), P(2, 3))), oracle.Chain(false, oracle.MkLine(o, P(-2, -3))))
 	// all ordered two-segment chains
 	closedVariants := 1
 	if tier == "thorough" {
@@ -439,6 +443,11 @@ func checkSplit(r *fw.R, it *item, tr *oracle.Trace, ts []float64) {
 	}
 	gtol := 1e-4 * scale
 	for j, d := range dec {
+		if cum[j+1]-cum[j] <= 2*gtol {
+			// a piece about as short as the comparison tolerance: its place is judged by the cut clause
+			r.Count("pieces_too_short_for_the_hausdorff_clause", 1)
+			continue
+		}
 		want := tr.BetweenMin(cum[j], cum[j+1], gtol)
 		got := dropShort(polylinesOf(d, 512), gtol)
 		if h := hausdorff(got, want, gtol/2); !(h <= gtol) {
